@@ -170,6 +170,11 @@ func RunCase(o *Out, specJSON string, callables map[string]any) {
 		}
 	}
 	for _, m := range spec.Methods {
+		if fn := r.Callables[m.Name]; fn.Kind() == reflect.Func && fn.IsNil() {
+			o.Emit(&MethodEvent{Ev: "method", Case: spec.Case, Method: m.Name, NViol: 1,
+				Violations: []Violation{{Kind: "unassigned_variable", Method: m.Name, Detail: "function variable is nil after init()"}}})
+			continue
+		}
 		runMethod(o, &spec, r, m)
 	}
 }
